@@ -629,7 +629,81 @@ def rule_T17(text):
     return text, fired
 
 
-RULES = {'T1': rule_T1, 'T2': rule_T2, 'T3': rule_T3, 'T5': rule_T5, 'T9': rule_T9, 'T10': rule_T10, 'T11': rule_T11, 'T12': rule_T12, 'T13': rule_T13, 'T14': rule_T14, 'T15': rule_T15, 'T16': rule_T16, 'T17': rule_T17}
+def _postfix_receiver_start(mask, dot):
+    """start offset of the postfix expression that ends right before the `.` at `dot` (identifiers, paths, field / method chains, calls,
+    indexing, `?`, a leading `&` / `*` is NOT included)"""
+    i = dot
+    while i > 0:
+        j = i - 1
+        while j >= 0 and mask[j] in ' \t\n':
+            j -= 1
+        if j < 0:
+            return i
+        ch = mask[j]
+        if ch in ')]':
+            op = {')': '(', ']': '['}[ch]
+            d, k = 0, j
+            while k >= 0:
+                if mask[k] == ch:
+                    d += 1
+                elif mask[k] == op:
+                    d -= 1
+                    if d == 0:
+                        break
+                k -= 1
+            i = k
+            continue
+        if ch == '?' or ch == '.':
+            i = j
+            continue
+        if ch == ':' and j > 0 and mask[j - 1] == ':':
+            i = j - 1
+            continue
+        if ch.isalnum() or ch == '_':
+            k = j
+            while k >= 0 and (mask[k].isalnum() or mask[k] == '_'):
+                k -= 1
+            word = mask[k + 1:j + 1]
+            if word in ('return', 'in', 'if', 'match', 'else', 'let', 'mut', 'move', 'as'):
+                return i
+            i = k + 1
+            # keep going only if what precedes is part of the chain
+            p = i - 1
+            while p >= 0 and mask[p] in ' \t\n':
+                p -= 1
+            if p >= 0 and (mask[p] == '.' or (mask[p] == ':' and p > 0 and mask[p - 1] == ':')):
+                continue
+            return i
+        return i
+    return i
+
+
+def rule_T18(text):
+    """`RECV.map(|p| BODY)` on an Option is the match it stands for (the definition of Option::map):
+        (match RECV { Some(p) => Some(BODY), None => None })
+    and `RECV.and_then(|p| BODY)` is `(match RECV { Some(p) => BODY, None => None })`. No closure is left, so BODY is ordinary code that
+    can be verified and can receive the ghost argument. (If RECV is not an Option the result does not type-check: UNDECIDED.)"""
+    fired = 0
+    while True:
+        mask = code_mask(text)
+        m = re.search(r'\.\s*(map|and_then)\s*\(\s*\|\s*(\w+)\s*\|', mask)
+        if not m:
+            break
+        op = mask.index('(', m.start())
+        cp = match_brace(mask, op, '(', ')')
+        body = text[m.end():cp].strip()
+        rs = _postfix_receiver_start(mask, m.start())
+        recv = text[rs:m.start()].strip()
+        if not recv:
+            raise ExtractError('T18: receiver of .%s(..) not found' % m.group(1))
+        some = ('Some(%s)' % body) if m.group(1) == 'map' else body
+        new = '(match %s { Some(%s) => %s, None => None })' % (recv, m.group(2), some)
+        text = text[:rs] + new + text[cp + 1:]
+        fired += 1
+    return text, fired
+
+
+RULES = {'T1': rule_T1, 'T2': rule_T2, 'T3': rule_T3, 'T5': rule_T5, 'T9': rule_T9, 'T10': rule_T10, 'T11': rule_T11, 'T12': rule_T12, 'T13': rule_T13, 'T14': rule_T14, 'T15': rule_T15, 'T16': rule_T16, 'T17': rule_T17, 'T18': rule_T18}
 
 
 def t6_key(callees):
